@@ -56,3 +56,18 @@ package manifest
 
 //@ func (Groups).Contains$1
 //@ ensures result == keys.keyEq(k, gr.PublicKey)
+
+// C16: decoding a permission from its stack-item form (contract state read back from storage)
+// keeps the difference between "any method" (Null) and an explicit, possibly empty, list:
+// the wildcard is nil, a list is never nil.
+//@ prop C16
+//@ import stackitem github.com/nspcc-dev/neo-go/pkg/vm/stackitem
+//@ func (*PermissionDesc).FromStackItem
+//@ assumed
+//@ modifies *d
+//@ func (*Permission).FromStackItem
+//@ may-panic
+//@ opt frame off
+//@ requires p != nil && item != nil
+//@ ensures[wild] result == nil ==> (p.Methods.Value == nil) == is(stackitem.valueOf(item).([]stackitem.Item)[1], stackitem.Null)
+//@ loop 0 invariant p.Methods.Value != nil
